@@ -107,7 +107,7 @@ class ReadInputs(FragmentTask):
             return
         mp = out.value.get("mp_inputs")
         ok = isinstance(mp, list) and all(isinstance(m, dict) for m in mp)
-        ctx.oblige("post.inputs-are-a-list-of-dicts", ok, "P")
+        ctx.structure("post.inputs-are-a-list-of-dicts", ok)
         if not ok:
             return
         names = sorted(str(m.get("fname")) for m in mp)
